@@ -2,8 +2,8 @@
 """tools/confirm_seed.py <PROP> <i> <name> : confirm a sub-agent's change in its scratch worktree and file it under seeded/<PROP>-<name>/"""
 import json, os, shutil, subprocess, sys
 prop, i, name = sys.argv[1], sys.argv[2], sys.argv[3]
-wt = "/tmp/wt_" + prop
-src = f"/verif/seeded/_incoming/{prop}"
+wt = os.environ.get("SEED_WT", "/tmp/wt_" + prop)
+src = os.environ.get("SEED_SRC", f"/verif/seeded/_incoming/{prop}")
 env = dict(os.environ, PYTHONPATH=wt + "/src", YAW_NUM_THREADS=os.environ.get("YAW_NUM_THREADS", "1"))
 def run(cmd, **k):
     return subprocess.run(cmd, shell=True, cwd=wt, env=env, capture_output=True, text=True, **k)
